@@ -83,17 +83,6 @@ Proof.
 Qed.
 
 (* ---- the gradient buffer of a tensor during backward ------------------------------------------------------------ *)
-(* buffer of a tensor after a backward pass: created by zero_() (children) or by the seeding of the root, then any
-   sequence of accumulated pieces, each one written according to [in_place] of its wrapper *)
-Definition start_buffer (seed_in_place is_root : bool) (data upstream : buffer) : option buffer :=
-  if is_root then seed_root seed_in_place data upstream else Some (zeros_like_buf data).
-
-Definition final_grad (seed_in_place is_root : bool) (data upstream : buffer) (vs : list buffer) : option buffer :=
-  match start_buffer seed_in_place is_root data upstream with
-  | Some b => accumulate b vs
-  | None => None
-  end.
-
 Lemma final_grad_invariant :
   forall is_root data upstream vs b',
     final_grad true is_root data upstream vs = Some b' -> fst b' = fst data /\ snd b' = snd data.
